@@ -261,3 +261,12 @@ Proof.
   intros PP G a H. induction H as [z|z p a P _ IH]; [exact G|].
   apply IH. eapply PP; eauto.
 Qed.
+
+(* a discarded ExecuteCommand leaves nothing behind: nothing applied, nothing handed to any zone *)
+Lemma mz_exec_discard_nothing t c s m x e ts row :
+  mz_exec_route t c s x = MzXDiscard ->
+  let o := mz_exec_handle t c s m x e ts row in
+  mz_xapp o = false /\ mz_xc o = [] /\ mz_xd o = [].
+Proof.
+  intros R. cbn zeta. unfold mz_exec_handle. rewrite R. destruct (_ && mz_ts_is ts MzTsOld); cbn; auto.
+Qed.
